@@ -23,7 +23,8 @@ TABLE = {"Author": "author", "Post": "post", "Comment": "comment"}
 # rel key -> (fk column on the root row, target model)
 TO_ONE = {
     "Post": {"author": ("author_id", "Author")},
-    "Comment": {"post": ("post_id", "Post"), "writer": ("writer_id", "Author")},
+    "Comment": {"post": ("post_id", "Post"), "writer": ("writer_id", "Author"),
+                "reviewer": ("reviewer_id", "Author")},
     "Author": {},
 }
 # rel key -> (target model, fk column on the target row pointing back)
@@ -320,7 +321,8 @@ def gen_data(rng):
     nc = rng.randint(3, 8)
     comments = [{"id": i + 1, "body": rng.choice(BODIES),
                  "post_id": rng.choice([p["id"] for p in posts]),
-                 "writer_id": rng.choice([None] + [a["id"] for a in authors] * 2)}
+                 "writer_id": rng.choice([None] + [a["id"] for a in authors] * 2),
+                 "reviewer_id": rng.choice([None] + [a["id"] for a in authors] * 2)}
                 for i in range(nc)]
     return {"Author": authors, "Post": posts, "Comment": comments}
 
